@@ -8,6 +8,12 @@ use mc_core::sem::Fmt;
 use rayon::prelude::*;
 use serde_json::json;
 
+/// cuts of the large `sized-*` files: within 24 bytes of a chunk boundary, of a 64 KiB multiple, every
+/// 4093rd offset, and every offset of the last 400 bytes (the two small last frames)
+fn sparse_cut(k: usize, end: usize, spans: &[(usize, usize)]) -> bool {
+    k % 4093 == 0 || k % 65536 < 24 || k % 65536 >= 65512 || k + 400 >= end || spans.iter().any(|(a, b)| k.abs_diff(*a) < 24 || k.abs_diff(*b) < 24)
+}
+
 /// one small file per chunk kind, with that chunk as the last chunk of the last frame
 fn last_chunk_files() -> Vec<(String, File)> {
     let fmt = Fmt::Rgba;
@@ -107,6 +113,35 @@ fn large_last_files() -> Vec<(String, File)> {
     out
 }
 
+
+/// 3-frame files of an exact total size around 64 KiB and 1 / 2 MiB (+ the 128-byte header, + one or
+/// more 16-byte frame headers): the first frame holds one large raw cel, padded with trailing chunk
+/// bytes to reach the size; the last two frames are small
+fn sized_files() -> Vec<(String, File)> {
+    let fmt = Fmt::Rgba;
+    let mut out = Vec::new();
+    for target in [65_536usize, 65_536 + 128, 1 << 20, (1 << 20) + 128, (1 << 20) + 128 + 16, (1 << 20) + 128 + 32, (1 << 20) + 128 + 48, (1 << 20) + 128 + 64, (2 << 20) + 128 + 16, (2 << 20) + 128 + 32] {
+        let mut f = gen::file(8, 8, &fmt, &[10, 20, 30]);
+        f.frames[0].push(Body::Layer(Layer::image("l0")));
+        f.frames[0].push(Body::Layer(Layer::image("l1")));
+        let side = if target < 200_000 { 100u16 } else if target < (3 << 19) { 500 } else { 720 };
+        f.frames[0].push(raw_cel(0, 0, 0, 255, side, side, noise(side as usize * side as usize * 4, 3)));
+        f.frames[1].push(raw_cel(1, 1, 1, 255, 2, 2, pixels(&fmt, 2, 2, 5, (0, 0))));
+        f.frames[2].push(raw_cel(0, 2, 2, 255, 2, 2, pixels(&fmt, 2, 2, 6, (0, 0))));
+        f.frames[2].push(raw_cel(1, 3, 3, 255, 1, 1, pixels(&fmt, 1, 1, 7, (0, 0))));
+        let len = f.encode().len();
+        if len > target {
+            continue;
+        }
+        // pad the big cel chunk
+        let last = f.frames[0].chunks.len() - 1;
+        f.frames[0].chunks[last].trailing = vec![0xAB; target - len];
+        debug_assert_eq!(f.encode().len(), target);
+        out.push((format!("sized-{}", target), f));
+    }
+    out
+}
+
 pub fn run(ctx: &Ctx) -> i32 {
     let thorough = ctx.tier == Tier::Thorough;
     // (name, bytes, end of last frame, chunk spans (start,end))
@@ -126,6 +161,9 @@ pub fn run(ctx: &Ctx) -> i32 {
         add(n, &f);
     }
     for (n, f) in large_last_files() {
+        add(n, &f);
+    }
+    for (n, f) in sized_files() {
         add(n, &f);
     }
     // a file whose chunks carry trailing bytes and whose frames use each count style
@@ -224,12 +262,14 @@ pub fn run(ctx: &Ctx) -> i32 {
         eprintln!("machinery error: {} of {} complete files do not load", before - files.len(), before);
         return 2;
     }
-    let total: usize = files.iter().map(|(n, _, e, sp)| if n == "big" && !thorough { (0..*e).filter(|k| k % 257 == 0 || k % 4096 < 24 || k % 4096 >= 4072 || sp.iter().any(|(a, b)| k.abs_diff(*a) < 24 || k.abs_diff(*b) < 24)).count() } else { *e }).sum();
-    ctx.family("prefixes", total as u64, &format!("every strict prefix bytes[..k], 0 <= k < end of last frame, of {} files: b1..b4, D1 in three formats, one file per chunk kind with that chunk last, 2- and 3-frame files whose last chunk is a 5..80 KB raw / zlib / stored-zlib / tilemap cel, user-data text, palette, tileset, slice or tags chunk that an earlier frame holds too, b1 with trailing bytes / both count styles / a tail, b1 and b2 with a stale (smaller) deprecated 16-bit chunk count beside the 32-bit one, and the corpus files up to 8 KB, plus `big` (every chunk > 64 KiB; quick: cuts near chunk / 4 KiB boundaries and every 257th offset, thorough: every offset){}", files.len(), if thorough { " plus one 525 KB corpus file at every offset" } else { "" }), true);
+    let total: usize = files.iter().map(|(n, _, e, sp)| if n.starts_with("sized-") { (0..*e).filter(|k| sparse_cut(*k, *e, sp)).count() } else if n == "big" && !thorough { (0..*e).filter(|k| k % 257 == 0 || k % 4096 < 24 || k % 4096 >= 4072 || sp.iter().any(|(a, b)| k.abs_diff(*a) < 24 || k.abs_diff(*b) < 24)).count() } else { *e }).sum();
+    ctx.family("prefixes", total as u64, &format!("every strict prefix bytes[..k], 0 <= k < end of last frame, of {} files: b1..b4, D1 in three formats, one file per chunk kind with that chunk last, 2- and 3-frame files whose last chunk is a 5..80 KB raw / zlib / stored-zlib / tilemap cel, user-data text, palette, tileset, slice or tags chunk that an earlier frame holds too, 3-frame files of exactly 64 KiB, 1 MiB and 2 MiB (+128, +128+16k) bytes with structured cuts, b1 with trailing bytes / both count styles / a tail, b1 and b2 with a stale (smaller) deprecated 16-bit chunk count beside the 32-bit one, and the corpus files up to 8 KB, plus `big` (every chunk > 64 KiB; quick: cuts near chunk / 4 KiB boundaries and every 257th offset, thorough: every offset){}", files.len(), if thorough { " plus one 525 KB corpus file at every offset" } else { "" }), true);
     for (name, bytes, end, spans) in &files {
         // `big` (400 KB) in the quick tier: every cut within 24 bytes of a chunk boundary, of a
         // 4 KiB / 64 KiB multiple, and every 257th offset; all offsets in the thorough tier
-        let cuts: Vec<usize> = if name == "big" && !thorough {
+        let cuts: Vec<usize> = if name.starts_with("sized-") {
+            (0..*end).filter(|k| sparse_cut(*k, *end, spans)).collect()
+        } else if name == "big" && !thorough {
             (0..*end).filter(|k| k % 257 == 0 || k % 4096 < 24 || k % 4096 >= 4072 || spans.iter().any(|(a, b)| k.abs_diff(*a) < 24 || k.abs_diff(*b) < 24)).collect()
         } else {
             (0..*end).collect()
